@@ -76,6 +76,9 @@ const PLANTS: &[(&str, u8, bool)] = &[
     // address_zero
     ("a == address ( 0 )", 11, false),
     ("address ( 0 ) != a", 11, false),
+    ("address ( 0 ) == address ( 0 )", 11, false),
+    ("address ( 0 ) != address ( 0 )", 11, false),
+    ("true == false", 11, false),
     ("a == address ( 1 )", 11, false),
     ("a != address ( b )", 11, false),
     ("a < address ( 0 )", 10, false),
@@ -102,6 +105,8 @@ const PLANTS: &[(&str, u8, bool)] = &[
     ("arr [ 0 ] = arr [ 0 ] ** 2", 14, false),
     ("arr [ 0 ] = 1 + arr [ 0 ]", 14, true),
     ("arr [ i ] = arr [ i ] + 1", 14, true),
+    ("arr [ 0 ] = m [ 1 ] [ 2 ] + arr [ 0 ]", 14, true),
+    ("arr [ 2 ] = f ( a ) [ 0 ] * arr [ 2 ]", 14, true),
     // increment / decrement
     ("i ++", 0, false),
     ("++ i", 2, false),
@@ -203,6 +208,8 @@ const PLANTS: &[(&str, u8, bool)] = &[
     // .length
     ("arr . length", 0, false),
     ("i < arr . length", 10, false),
+    ("i < arr . length && j < brr . length", 12, false),
+    ("arr . length > brr . length", 10, false),
     ("arr . len", 0, false),
 ];
 
@@ -622,6 +629,10 @@ impl<'t, 'd> Gen<'t, 'd> {
             if k > 0 {
                 self.w(",");
             }
+            if n >= 2 && self.t.chance(12) {
+                // a hole: the grammar accepts empty slots in lists of two or more
+                continue;
+            }
             self.ty(1);
             if self.t.chance(110) {
                 self.wp(&["memory", "calldata", "storage", "memory"]);
@@ -653,7 +664,7 @@ impl<'t, 'd> Gen<'t, 'd> {
                 4 => self.w("virtual"),
                 5 => self.wp(&["override", "override ( A , B . C )"]),
                 6 | 7 => {
-                    self.wp(&["onlyOwner", "nonReentrant", "auth", "only", "Only", "mod . only", "lock", "Base"]);
+                    self.wp(&["onlyOwner", "nonReentrant", "auth", "only", "Only", "mod . only", "lock", "Base", "Readonly . whenLive", "onlyLib . guard", "a . b . conly . c"]);
                     if self.t.chance(140) {
                         self.w("(");
                         self.args(1);
@@ -735,7 +746,7 @@ impl<'t, 'd> Gen<'t, 'd> {
         }
         self.wp(&["public", "external", "external", "public", "internal", "private", ""]);
         if self.t.chance(70) {
-            self.wp(&["onlyOwner", "only", "auth", "Only", "nonReentrant", "mod . only", "whenNotPaused ( a )"]);
+            self.wp(&["onlyOwner", "only", "auth", "Only", "nonReentrant", "mod . only", "whenNotPaused ( a )", "Readonly . whenLive", "onlyLib . guard ( a )", "Guard . ONLY"]);
         }
         self.w("{");
         self.nl();
